@@ -26,7 +26,6 @@ static const char *g_prop;
 static long long n_eval;
 static sigjmp_buf jb;
 static volatile int in_call;
-static const char *cur_fn = "?";
 static void
 on_segv(int s, siginfo_t *si, void *u)
 {
@@ -45,6 +44,8 @@ viol(const char *fn, const char *site, const char *detail, long x, long y)
         char sig[200];
         if (!strcmp(g_prop, "C18") && strcmp(site, "fault"))
                 return; /* C18 run: only calling-convention records (emitted by the trampoline) and faults */
+        if (!strcmp(g_prop, "C07") && strcmp(site, "fault") && strcmp(site, "write-outside-destination"))
+                return; /* C07 run: faults on the guard pages and writes outside the destination */
         snprintf(sig, sizeof sig, "%s|%s|%s|%s", g_prop, fn, site, VARIANTS[g_v].name);
         if (!rec_sig_ok(sig, 3))
                 return;
@@ -72,10 +73,16 @@ viol(const char *fn, const char *site, const char *detail, long x, long y)
                 }                                                                                  \
         } while (0)
 
+static int g_place; /* 0: every buffer ends flush against an unmapped page; 1: every buffer starts right after one */
+static inline uint8_t *
+place(region_t r, size_t n)
+{
+        return g_place ? r.base : region_endflush(r, n);
+}
 static uint8_t *
 inbuf(int i, size_t n, uint64_t seed)
 {
-        uint8_t *p = region_endflush(RIN[i], n);
+        uint8_t *p = place(RIN[i], n);
         fill_rand(p, n, seed);
         return p;
 }
@@ -83,14 +90,25 @@ static uint8_t *
 outbuf(int i, size_t n)
 {
         memset(ROUT[i].base, 0xA7, ROUT[i].size);
-        return region_endflush(ROUT[i], n);
+        return place(ROUT[i], n);
 }
+static int
+canary_ok(int i, size_t n)
+{
+        uint8_t *lo = g_place ? ROUT[i].base + n : ROUT[i].base, *hi = g_place ? ROUT[i].base + ROUT[i].size : ROUT[i].base + ROUT[i].size - n;
+        for (uint8_t *p = lo; p < hi; p++)
+                if (*p != 0xA7)
+                        return 0;
+        return 1;
+}
+static const char *cur_fn;
+static void viol(const char *fn, const char *site, const char *detail, long x, long y);
+/* bytes of the destination region outside the n-byte destination must be untouched (C07) */
 static int
 out_canary_ok(int i, size_t n)
 {
-        for (uint8_t *p = ROUT[i].base; p < ROUT[i].base + ROUT[i].size - n; p++)
-                if (*p != 0xA7)
-                        return 0;
+        if (!canary_ok(i, n))
+                viol(cur_fn, "write-outside-destination", "bytes outside the destination range of exactly the message length were written (x = buffer)", i, (long) n);
         return 1;
 }
 
@@ -128,7 +146,7 @@ t_zuc(void)
                         profile(prof, n, len, 1, 300);
                         for (int i = 0; i < n; i++) {
                                 keys[i] = KEY[i];
-                                uint8_t *iv = region_endflush(RIV[i], 16);
+                                uint8_t *iv = place(RIV[i], 16);
                                 fill_rand(iv, 16, 900 + (uint64_t) i);
                                 ivs[i] = iv;
                                 ins[i] = inbuf(i, len[i], 1000 + (uint64_t) i);
@@ -166,7 +184,7 @@ t_zuc(void)
                         profile(prof, n, bl, 1, 2100);
                         for (int i = 0; i < n; i++) {
                                 ins[i] = inbuf(i, (bl[i] + 7) / 8, 1100 + (uint64_t) i);
-                                tags[i] = (uint32_t *) (void *) region_endflush(RTAG[i], 4);
+                                tags[i] = (uint32_t *) (void *) place(RTAG[i], 4);
                                 memset(tags[i], 0, 4);
                         }
                         GUARDED("zuc-eia3-n-buffer", CALLN("zuc_eia3_n_buffer", m->eia3_n_buffer, A(keys), A(ivs), A(ins), A(bl), A(tags), A(n)));
@@ -213,7 +231,7 @@ t_snow3g(void)
                                         continue;
                                 for (int i = 0; i < n; i++) {
                                         len[i] = 40;
-                                        ivs[i] = region_endflush(RIV[i], 16);
+                                        ivs[i] = place(RIV[i], 16);
                                         ins[i] = inbuf(i, 40, 1);
                                         outs[i] = outbuf(i, 40);
                                 }
@@ -230,7 +248,7 @@ t_snow3g(void)
                         }
                         profile(prof, n, len, 1, 300);
                         for (int i = 0; i < n; i++) {
-                                uint8_t *iv = region_endflush(RIV[i], 16);
+                                uint8_t *iv = place(RIV[i], 16);
                                 fill_rand(iv, 16, 1900 + (uint64_t) i);
                                 ivs[i] = iv;
                                 ins[i] = inbuf(i, len[i], 2000 + (uint64_t) i);
@@ -313,7 +331,7 @@ t_snow3g(void)
                                 /* F9 over bit lengths */
                                 for (uint32_t bits = 1; bits <= 600; bits += (prof + 1)) {
                                         const uint8_t *msg = inbuf(1, (bits + 7) / 8, 2100 + bits);
-                                        uint8_t *tag = region_endflush(RTAG[0], 4);
+                                        uint8_t *tag = place(RTAG[0], 4);
                                         uint8_t et[4];
                                         GUARDED("snow3g-f9-1-buffer", CALLN("snow3g_f9_1_buffer", m->snow3g_f9_1_buffer, A(ks[0]), A(ivs[0]), A(msg), A(bits), A(tag)));
                                         ref_snow3g_uia2(KEY[0], ivs[0], msg, bits, et);
@@ -399,7 +417,7 @@ t_kasumi(void)
         /* F9 (already formatted message) */
         for (uint32_t l = 9; l <= 300; l++) {
                 const uint8_t *msg = inbuf(0, l, 3300 + l);
-                uint8_t *tag = region_endflush(RTAG[0], 4);
+                uint8_t *tag = place(RTAG[0], 4);
                 uint8_t et[4];
                 GUARDED("kasumi-f9-1-buffer", CALLN("kasumi_f9_1_buffer", m->f9_1_buffer, A(&k9), A(msg), A(l), A(tag)));
                 ref_kasumi_f9(KEY[0], msg, l, et);
@@ -505,11 +523,11 @@ t_gcm_cfb_quic(void)
                                 uint32_t aadl = l % 27, tl = 16 - (l % 5);
                                 const uint8_t *in = inbuf(0, l, 6000 + l);
                                 uint8_t *out = outbuf(0, l);
-                                uint8_t *iv = region_endflush(RIV[0], 12);
+                                uint8_t *iv = place(RIV[0], 12);
                                 fill_rand(iv, 12, 6100 + l);
-                                uint8_t *aad = region_endflush(RAAD, aadl);
+                                uint8_t *aad = place(RAAD, aadl);
                                 fill_rand(aad, aadl, 6200 + l);
-                                uint8_t *tag = region_endflush(RTAG[0], tl);
+                                uint8_t *tag = place(RTAG[0], tl);
                                 GUARDED("gcm-one-shot", CALLN("gcm_enc_dec", d ? enc[k] : dec[k], A(&gk[k]), A(&ctx), A(out), A(in), A(l), A(iv), A(aad), A(aadl), A(tag), A(tl)));
                                 ref_gcm(d, KEY[0], KL[k], iv, 12, aad, aadl, in, exp, l, et);
                                 n_eval++;
@@ -521,7 +539,7 @@ t_gcm_cfb_quic(void)
         IMB_GHASH_PRE(m, KEY[1], &ghk);
         for (uint32_t l = 1; l <= 400; l++) {
                 const uint8_t *in = inbuf(0, l, 6500 + l);
-                uint8_t *tag = region_endflush(RTAG[0], 16);
+                uint8_t *tag = place(RTAG[0], 16);
                 memset(tag, 0, 16);
                 GUARDED("ghash", CALLN("ghash", m->ghash, A(&ghk), A(in), A(l), A(tag), A(16)));
                 ref_ghash(KEY[1], in, l, et);
@@ -541,7 +559,7 @@ t_gcm_cfb_quic(void)
                         for (int t = 0; t < 4; t++) {
                                 const uint8_t *in = inbuf(0, l, 6700 + l * 7 + (uint64_t) t);
                                 uint8_t *out = outbuf(0, l);
-                                uint8_t *iv = region_endflush(RIV[0], 16);
+                                uint8_t *iv = place(RIV[0], 16);
                                 fill_rand(iv, 16, 6800 + l);
                                 GUARDED("cfb-one", CALLN("aes_cfb_one", k ? m->aes256_cfb_one : m->aes128_cfb_one, A(out), A(in), A(iv), A(ek), A(l)));
                                 ref_aes_cfb128(1, KEY[2], k ? 32 : 16, iv, in, exp, l);
@@ -565,12 +583,12 @@ t_gcm_cfb_quic(void)
                                         lens[i] = l32[i];
                                         srcs[i] = inbuf(i, l32[i], 7000 + (uint64_t) i);
                                         dsts[i] = outbuf(i, l32[i]);
-                                        uint8_t *iv = region_endflush(RIV[i], 12);
+                                        uint8_t *iv = place(RIV[i], 12);
                                         fill_rand(iv, 12, 7100 + (uint64_t) i);
                                         ivs[i] = iv;
                                         fill_rand(aadbuf[i], 16, 7200 + (uint64_t) i);
                                         aads[i] = aadbuf[i];
-                                        tags[i] = region_endflush(RTAG[i], 16);
+                                        tags[i] = place(RTAG[i], 16);
                                 }
                                 GUARDED("quic-aes-gcm", CALLN("imb_quic_aes_gcm", imb_quic_aes_gcm, A(m), A(&gk[k]), A(KL[k]), A(d ? IMB_DIR_ENCRYPT : IMB_DIR_DECRYPT),
                                                               A(dsts), A(srcs), A(lens), A(ivs), A(aads), A(11), A(tags), A(16), A(n)));
@@ -588,12 +606,12 @@ t_gcm_cfb_quic(void)
                                 lens[i] = l32[i];
                                 srcs[i] = inbuf(i, l32[i], 7300 + (uint64_t) i);
                                 dsts[i] = outbuf(i, l32[i]);
-                                uint8_t *iv = region_endflush(RIV[i], 12);
+                                uint8_t *iv = place(RIV[i], 12);
                                 fill_rand(iv, 12, 7400 + (uint64_t) i);
                                 ivs[i] = iv;
                                 fill_rand(aadbuf[i], 16, 7500 + (uint64_t) i);
                                 aads[i] = aadbuf[i];
-                                tags[i] = region_endflush(RTAG[i], 16);
+                                tags[i] = place(RTAG[i], 16);
                         }
                         GUARDED("quic-chacha20-poly1305", CALLN("imb_quic_chacha20_poly1305", imb_quic_chacha20_poly1305, A(m), A(KEY[3]), A(d ? IMB_DIR_ENCRYPT : IMB_DIR_DECRYPT),
                                                                 A(dsts), A(srcs), A(lens), A(ivs), A(aads), A(9), A(tags), A(n)));
@@ -631,6 +649,94 @@ t_gcm_cfb_quic(void)
                                 viol("quic-hp-chacha20", "mask-differs", "header-protection mask differs from ChaCha20(counter, nonce from sample) (x = n, y = packet)", n, i);
                 }
         }
+}
+
+/* ---- bit-level helpers: bit i of a buffer = MSB-first within bytes ---- */
+static inline int
+getbit(const uint8_t *p, size_t i)
+{
+        return (p[i >> 3] >> (7 - (i & 7))) & 1;
+}
+/* expectation for a bit-offset stream cipher call: out bits [off, off+n) = in bits [off, off+n) ^ ks bits [0, n); every
+ * other bit of out keeps its previous value. ks = keystream obtained by encrypting zeros with the reference. */
+static int
+bit_expect_ok(const uint8_t *in, const uint8_t *out, const uint8_t *out_before, const uint8_t *ks, size_t off, size_t n, size_t total_bytes)
+{
+        for (size_t i = 0; i < total_bytes * 8; i++) {
+                if (off == 0 && i >= n)
+                        break; /* byte-aligned start: the library rewrites the whole last byte; its trailing bits are not part of the result */
+                int e = (i >= off && i < off + n) ? (getbit(in, i) ^ getbit(ks, i - off)) : getbit(out_before, i);
+                if (getbit(out, i) != e)
+                        return 0;
+        }
+        return 1;
+}
+static void
+t_bit_level(void)
+{
+        static snow3g_key_schedule_t sk;
+        static kasumi_key_sched_t k8, k9;
+        IMB_SNOW3G_INIT_KEY_SCHED(m, KEY[0], &sk);
+        IMB_KASUMI_INIT_F8_KEY_SCHED(m, KEY[0], &k8);
+        IMB_KASUMI_INIT_F9_KEY_SCHED(m, KEY[0], &k9);
+        static uint8_t zeros[400], ks[400], before[400];
+        for (uint32_t bits = 1; bits <= 700; bits += (bits < 140 ? 1 : 7))
+                for (uint32_t off = 0; off < 8; off++) {
+                        size_t tb = (off + bits + 7) / 8;
+                        uint8_t *iv = place(RIV[0], 16);
+                        fill_rand(iv, 16, 9100 + bits);
+                        /* SNOW3G */
+                        const uint8_t *in = inbuf(0, tb, 9000 + bits * 8 + off);
+                        uint8_t *out = outbuf(0, tb);
+                        fill_rand(out, tb, 9200 + bits);
+                        memcpy(before, out, tb);
+                        ref_snow3g_uea2(KEY[0], iv, zeros, ks, bits);
+                        GUARDED("snow3g-f8-1-buffer-bit", CALLN("snow3g_f8_1_buffer_bit", m->snow3g_f8_1_buffer_bit, A(&sk), A(iv), A(in), A(out), A(bits), A(off)));
+                        n_eval++;
+                        if (!bit_expect_ok(in, out, before, ks, off, bits, tb))
+                                viol("snow3g-f8-1-buffer-bit", "output-differs", "bits [off, off+len) must be in ^ keystream and every other bit of dst unchanged (x = bits, y = offset)", bits, off);
+                        /* KASUMI (offset documented for the input buffer; exercised at offset 0 only for the output position) */
+                        if (off == 0) {
+                                uint64_t kiv;
+                                memcpy(&kiv, iv, 8);
+                                in = inbuf(1, tb, 9300 + bits);
+                                out = outbuf(1, tb);
+                                fill_rand(out, tb, 9400 + bits);
+                                memcpy(before, out, tb);
+                                ref_kasumi_f8(KEY[0], iv, zeros, ks, bits);
+                                GUARDED("kasumi-f8-1-buffer-bit", CALLN("kasumi_f8_1_buffer_bit", m->f8_1_buffer_bit, A(&k8), kiv, A(in), A(out), A(bits), A(0)));
+                                n_eval++;
+                                if (!bit_expect_ok(in, out, before, ks, 0, bits, tb))
+                                        viol("kasumi-f8-1-buffer-bit", "output-differs", "first len bits must be in ^ keystream, the remaining bits of the last byte unchanged (x = bits)", bits, 0);
+                        }
+                }
+        /* KASUMI F9 with unformatted message: COUNT||FRESH (iv), message bits, direction */
+        for (uint32_t bits = 1; bits <= 700; bits++)
+                for (uint32_t dir = 0; dir < 2; dir++) {
+                        uint8_t ivb[8], fmt[128], et[4];
+                        uint64_t kiv;
+                        fill_rand(ivb, 8, 9500 + bits);
+                        memcpy(&kiv, ivb, 8);
+                        size_t mb = (bits + 7) / 8;
+                        const uint8_t *msg = inbuf(0, mb, 9600 + bits);
+                        uint8_t *tag = place(RTAG[0], 4);
+                        memset(fmt, 0, sizeof fmt);
+                        memcpy(fmt, ivb, 8);
+                        for (uint32_t i = 0; i < bits; i++)
+                                if (getbit(msg, i))
+                                        fmt[8 + (i >> 3)] |= (uint8_t) (0x80 >> (i & 7));
+                        uint32_t p = 64 + bits;
+                        if (dir)
+                                fmt[p >> 3] |= (uint8_t) (0x80 >> (p & 7));
+                        p++;
+                        fmt[p >> 3] |= (uint8_t) (0x80 >> (p & 7));
+                        p++;
+                        GUARDED("kasumi-f9-1-buffer-user", CALLN("kasumi_f9_1_buffer_user", m->f9_1_buffer_user, A(&k9), kiv, A(msg), A(bits), A(tag), A(dir)));
+                        ref_kasumi_f9(KEY[0], fmt, (p + 7) / 8, et);
+                        n_eval++;
+                        if (memcmp(tag, et, 4))
+                                viol("kasumi-f9-1-buffer-user", "tag-differs", "F9 over COUNT||FRESH||message||direction||1||0.. differs from the reference (x = bits, y = direction)", bits, dir);
+                }
 }
 
 /* NULL / zero arguments: no fault and an error code */
@@ -718,11 +824,15 @@ run_variant(long v, void *arg)
                 fill_rand(KEY[i], 64, 880 + (uint64_t) i);
         int part = (int) (long) arg;
         (void) part;
-        t_zuc();
-        t_snow3g();
-        t_kasumi();
-        t_hash_crc();
-        t_gcm_cfb_quic();
+        for (g_place = 0; g_place < 2; g_place++) {
+                t_zuc();
+                t_snow3g();
+                t_kasumi();
+                t_hash_crc();
+                t_gcm_cfb_quic();
+                t_bit_level();
+        }
+        g_place = 0;
         t_null_args();
         stat_add("evaluations", n_eval);
         stat_add("distinct_nontrivial", n_eval);
